@@ -51,7 +51,7 @@ func verifRestored(t *refTerm, vx *Vaxis, tag string) {
 	zzverif.Assert(t.shape == int(vx.userCursorStyle), tag+":cursor-shape-restored")
 	zzverif.Assert(t.pointer == "" || t.pointer == "text" || t.pointer == "default", tag+":pointer-shape-restored")
 	if vx.caps.osc176 {
-		zzverif.Assert(t.appID == "" || t.appID == string(vx.appIDLast), tag+":application-id-restored")
+		zzverif.Assert(t.appID == "" || t.appID == "app", tag+":application-id-restored")
 	}
 }
 
@@ -66,15 +66,19 @@ func VerifC04Session() {
 	vx.chQuit = make(chan bool)
 	vx.chSigKill = make(chan os.Signal, 1)
 	vx.chSigWinSz = make(chan os.Signal, 1)
-	vx.caps.kittyKeyboard = zzverif.Bool("cap.kitty")
-	vx.caps.sixels = zzverif.Bool("cap.sixels")
-	vx.caps.kittyGraphics = zzverif.Bool("cap.kittyGraphics")
-	vx.caps.unicodeCore = zzverif.Bool("cap.unicodeCore")
-	vx.caps.explicitWidth = zzverif.Bool("cap.explicitWidth")
-	vx.caps.colorThemeUpdates = zzverif.Bool("cap.colorTheme")
-	vx.caps.inBandResize = zzverif.Bool("cap.inBandResize")
-	vx.caps.osc176 = zzverif.Bool("cap.osc176")
-	vx.caps.synchronizedUpdate = zzverif.Bool("cap.sync")
+	// history=0: every capability flag free, short frame history; history=1: every capability
+	// advertised, longer frame histories (second frame, application id)
+	history := zzverif.Param("history") == 1
+	capv := func(name string) bool { return history || zzverif.Bool(name) }
+	vx.caps.kittyKeyboard = capv("cap.kitty")
+	vx.caps.sixels = capv("cap.sixels")
+	vx.caps.kittyGraphics = capv("cap.kittyGraphics")
+	vx.caps.unicodeCore = capv("cap.unicodeCore")
+	vx.caps.explicitWidth = capv("cap.explicitWidth")
+	vx.caps.colorThemeUpdates = capv("cap.colorTheme")
+	vx.caps.inBandResize = capv("cap.inBandResize")
+	vx.caps.osc176 = capv("cap.osc176")
+	vx.caps.synchronizedUpdate = capv("cap.sync")
 	vx.disableMouse = zzverif.Bool("disableMouse")
 	vx.kittyFlags = 1
 	vx.userCursorStyle = CursorStyle(zzverif.Choose("userCursorStyle", 2) * 4)
@@ -96,7 +100,8 @@ func VerifC04Session() {
 	if zzverif.Bool("frame") {
 		win := vx.Window()
 		win.SetCell(0, 0, Cell{Character: Character{Grapheme: "a", Width: 1}, Style: Style{Attribute: AttrBold, Hyperlink: "http://a"}})
-		if zzverif.Bool("showCursor") {
+		shown := zzverif.Bool("showCursor")
+		if shown {
 			vx.ShowCursor(1, 1, CursorBeam)
 		}
 		pointer := zzverif.Bool("pointer")
@@ -105,6 +110,18 @@ func VerifC04Session() {
 		}
 		vx.Render()
 		t.feed(con.take())
+		if history && shown && zzverif.Bool("secondFrame") {
+			// a later frame asks for the user's own cursor style and hides the cursor: the
+			// terminal still carries the beam of the first frame
+			vx.ShowCursor(0, 0, vx.userCursorStyle)
+			vx.HideCursor()
+			vx.Render()
+			t.feed(con.take())
+		}
+		if history && zzverif.Bool("setAppID") {
+			vx.SetAppID("mine")
+			t.feed(con.take())
+		}
 		// a shape requested after the last frame (never rendered) must not confuse shutdown
 		if pointer {
 			switch zzverif.Choose("pointerAfterFrame", 3) {
